@@ -209,7 +209,7 @@ func (c *shardedMap) deleteExpired(before time.Time) {
 
 		b.Lock()
 		for h, v := range b.data {
-			if v.E < beforeTS {
+			if v.E != 0 && v.E < beforeTS {
 				delete(b.data, h)
 			}
 		}
